@@ -433,8 +433,23 @@ class SArr(SBase):
             self.store[pos] = cast_elem(v, sdt, self.dtype, 'setitem') if self.dtype.kind != 'O' else v
 
     def sort(self, axis=-1, **kw):
+        if any(v is not None for v in kw.values()):
+            raise Undecided('sort kwargs')
         if self.symbolic:
-            raise Undecided('in-place sort of symbolic array')
+            core.CTX.assumed_used.add('numpy: sort orders elements (compare-exchange network semantics)')
+            moved = _np.moveaxis(self.idx, axis, -1)
+            rows = moved.reshape(-1, moved.shape[-1]) if moved.ndim > 0 else moved.reshape(1, 1)
+            for row in rows:
+                pos = row.tolist()
+                n = len(pos)
+                for i in range(n):
+                    for j in range(n - 1 - i):
+                        p, q = pos[j], pos[j + 1]
+                        u, v = self.store[p], self.store[q]
+                        c = (v < u)
+                        self.store[p] = _ite_num(c, v, u)
+                        self.store[q] = _ite_num(c, u, v)
+            return
         real = _np.array(self.elems, dtype=self.dtype).reshape(self.shape)
         real.sort(axis=axis)
         for pos, v in zip(self.idx.ravel().tolist(), real.ravel().tolist()):
@@ -512,6 +527,10 @@ def array(obj, dtype=None, copy=True, ndmin=0):
     if isinstance(obj, _np.generic):
         a = from_real(_np.asarray(obj))
         return a if dtype is None else a.astype(dtype)
+    if not isinstance(obj, (list, tuple, SNum, SBool, str, int, float, bool, complex, type(None))) and hasattr(type(obj), '__array__'):
+        core.CTX.assumed_used.add('numpy: np.array(obj) uses obj.__array__()')
+        r = obj.__array__()
+        return array(r, dtype=dtype, copy=copy)
     # nested lists / tuples / scalars
     shape, leaves = _nest(obj)
     if shape is None:
@@ -661,11 +680,34 @@ def _check_pyint_fits(py, dt):
         raise OverflowError('Python integer out of bounds for %s' % dt.name)
 
 
+def _concrete_operand(k, v):
+    if k == 'arr':
+        return (not v.symbolic) and v.dtype.kind != 'O'
+    return isinstance(v, (bool, int, float))
+
+
+def _real_of(k, v):
+    if k == 'py':
+        return v
+    if isinstance(v, SGen):
+        return _np.array(v.elems[0], dtype=v.dtype)[()]
+    return _np.array(v.elems, dtype=v.dtype).reshape(v.shape)
+
+
 def binary(op, a, b):
     ka, va = _classify(a)
     kb, vb = _classify(b)
     if ka == 'other' or kb == 'other':
         return NotImplemented
+    if _concrete_operand(ka, va) and _concrete_operand(kb, vb):
+        # configuration-only arithmetic: NumPy's own semantics
+        import warnings
+        with warnings.catch_warnings():
+            warnings.simplefilter('ignore')
+            r = getattr(_np, op)(_real_of(ka, va), _real_of(kb, vb))
+        if isinstance(r, _np.ndarray) and r.dtype.kind == 'c':
+            raise Undecided('complex result')
+        return from_real(r) if isinstance(r, (_np.ndarray, _np.generic)) else r
     core.CTX.assumed_used.add('numpy: elementwise %s with NEP 50 promotion' % op)
     # ---- result / computation dtype ------------------------------------------------------
     if ka == 'arr' and kb == 'arr':
